@@ -103,6 +103,20 @@ pub fn new_leaf(xot: &mut Xot, a: &ANode) -> Node {
             _ => {}
         }
     }
+    if a.kind == AKind::Elem && key % 4 == 3 && !a.name.local.contains(':') {
+        // the name comes from a qualified-name string and a lookup closure, as when building from prefixed input: the
+        // unprefixed spelling with a closure that reports the element's namespace as the default namespace (None for
+        // every other prefix), or a prefixed spelling with a closure that knows that one prefix
+        let ns = xot.add_namespace(&a.name.ns);
+        let made = if key % 8 == 3 {
+            xot::xmlname::CreateName::parse_full_name(xot, &a.name.local, |p| if p.is_empty() { Some(ns) } else { None })
+        } else {
+            xot::xmlname::CreateName::parse_full_name(xot, &format!("zzq:{}", a.name.local), |p| if p == "zzq" { Some(ns) } else { None })
+        };
+        if let Ok(cn) = made {
+            return xot.new_element(cn);
+        }
+    }
     match a.kind {
         AKind::Doc => xot.new_document(),
         AKind::Elem => {
